@@ -30,8 +30,20 @@ sys.path.insert(0, os.environ.get("PYVC_REPO", "/repo"))
 class Opaque:
     """An object the counter-model leaves abstract (identity only)."""
 
-    def __init__(self, name, classes=()):
-        self.name, self.classes = name, tuple(classes)
+    def __init__(self, name, classes=(), truthy=True):
+        self.name, self.classes, self.truthy = name, tuple(classes), truthy
+
+    def __bool__(self):
+        return bool(self.truthy)
+
+    def __iter__(self):
+        return iter(())
+
+    def __hash__(self):
+        return id(self)
+
+    def __eq__(self, other):
+        return self is other
 
     def to_dict(self):
         """x.to_dict() of an abstract object: an abstract dump that identifies the object (dump_of in the contracts)."""
@@ -118,14 +130,17 @@ class Builder:
             return None
         if isinstance(v, dict) and "$obj" in v:
             k = v.get("kind")
-            if k in (1, 2, 3, 4) and "value" in v:
+            repo_classes = [c for c in v.get("classes", ()) if self.find_repo_class(c) is not None]
+            if repo_classes:
+                return self.stub_instance(v, repo_classes)
+            if k in (1, 2, 3, 4) and "value" in v and not v.get("classes"):
                 val = v["value"]
                 if k == 1:
                     self.pool["str"].add(val)
                 return {1: str, 2: int, 3: bool, 4: float}[k](val)
             nm = v["$obj"]
             if nm not in self.objs:
-                self.objs[nm] = Opaque(nm, v.get("classes", ()))
+                self.objs[nm] = Opaque(nm, v.get("classes", ()), v.get("truthy", True))
                 for mname, mv in (v.get("methods") or {}).items():
                     setattr(self.objs[nm], mname, (lambda val: (lambda *a, **k: val))(self.obj(mv)))
                 for a, av in (v.get("attrs") or {}).items():
@@ -144,6 +159,49 @@ class Builder:
         if isinstance(v, str):
             self.pool["str"].add(v)
         return v
+
+    def find_repo_class(self, name):
+        import inspect as _i
+        for mod in ("types", "base", "memento", "reference", "metadata", "external", "storage_base", "configuration", "exception", "code_hash"):
+            try:
+                m = importlib.import_module("twosigma.memento." + mod)
+            except Exception:
+                continue
+            c = getattr(m, name, None)
+            if _i.isclass(c):
+                return c
+        return None
+
+    def stub_instance(self, v, classes):
+        """An object the model only knows by its class: a bare instance of a concrete subclass of that repository class (abstract
+        methods waived), carrying the attribute / method values the model assigns to it."""
+        nm = v["$obj"]
+        if nm in self.objs:
+            return self.objs[nm]
+        bases = []
+        for c in classes:
+            k = self.find_repo_class(c)
+            if not any(issubclass(b, k) for b in bases):
+                bases = [b for b in bases if not issubclass(k, b)] + [k]
+        cls = type("Model_" + "_".join(b.__name__ for b in bases), tuple(bases), {"__abstractmethods__": frozenset(), "__repr__": lambda s_: "<%s %s>" % (type(s_).__name__, nm),
+                                                                           "__deepcopy__": lambda s_, memo: s_})
+        try:
+            cls.__abstractmethods__ = frozenset()
+            o = object.__new__(cls)
+        except TypeError as e:
+            raise Undecidable("cannot make a stand-in instance of %s: %s" % (classes, e))
+        self.objs[nm] = o
+        for mname, mv in (v.get("methods") or {}).items():
+            try:
+                object.__setattr__(o, mname, (lambda val: (lambda *a, **k: val))(self.obj(mv)))
+            except Exception:
+                pass
+        for a, av in (v.get("attrs") or {}).items():
+            try:
+                object.__setattr__(o, a, self.obj(av))
+            except Exception:
+                pass
+        return o
 
     def rec(self, v):
         name = v["$rec"][3:] if v["$rec"].startswith("mk_") else v["$rec"]
@@ -318,7 +376,7 @@ class Native:
         ns = self.ns
         ns.update({"implies": lambda a, b: (not a) or bool(b), "iff": lambda a, b: bool(a) == bool(b), "ite": lambda c, a, b: a if c else b,
                    "same": self.same, "truthy": bool, "isnone": lambda x: x is None, "forall": self.forall, "exists": self.exists,
-                   "first_index": self.first_index, "stamp": self.stamp, "dsum": self.dsum, "dnonneg": self.dnonneg, "pos": lambda l, x: list(l).index(x) if x in l else -1,
+                   "first_index": self.first_index, "full_match": lambda x, pat: re.fullmatch(pat, x) is not None, "stamp": self.stamp, "dsum": self.dsum, "dnonneg": self.dnonneg, "pos": lambda l, x: list(l).index(x) if x in l else -1,
                    "str": str, "int": int, "bool": bool, "float": float, "obj": object, "len": len, "isinstance": self.isinst, "True": True, "False": False, "None": None})
         ns.update(natives)
         for name, (ps, body) in builder.ctx["specs"].items():
